@@ -118,6 +118,16 @@ TextOf(ref) == TextOfKids(ref)
 MaxCode(enc) == CASE enc = "US-ASCII" -> 127 [] enc = "ISO-8859-1" -> 255 [] OTHER -> 1114111
 RepresentableIn(s, enc) == \A i \in 1..Len(s) : s[i] <= MaxCode(enc)
 
+(* 16.1: a character the encoding cannot represent becomes a character reference - except where XML knows no *)
+(* character references: "in the value of a processing instruction node or comment node ... the XSLT          *)
+(* processor should signal an error".  There an error is the conforming outcome of an encoding change.        *)
+RECURSIVE MarkupRepresentable(_, _)
+MarkupRepresentable(kids, enc) ==
+  \A i \in 1..Len(kids) :
+     CASE kids[i].k \in {"comment", "pi"} -> RepresentableIn(kids[i].v, enc)
+       [] kids[i].k = "elem" -> MarkupRepresentable(kids[i].kids, enc)
+       [] OTHER -> TRUE
+
 (* ------------------------------------------------------------------------------ method = html ------- *)
 VoidElems == {"br", "hr", "img", "input", "meta", "link", "area", "base", "col", "param"}
 (* %URI; attributes of HTML 4.01 *)
